@@ -39,8 +39,10 @@ func VerifC09_Store() {
 			return
 		}
 		st.Close()
-	case 3: // record value corrupted / truncated
-		garbage := [][]byte{{}, {0x30}, {0xEE}, {0xEE, 0xFF}}[verifrt.Choose(4)] // truncated to 0 / 1 byte, wrong index
+	case 3: // record value corrupted / truncated / replaced by a well-formed record of ANOTHER serial (bit flip inside the serial)
+		foreign := &pkix.RevokedCertificate{SerialNumber: serial("foreign")}
+		verifrt.Assume(foreign.SerialNumber.Cmp(listedSerial) != 0)
+		garbage := [][]byte{{}, {0x30}, {0xEE}, {0xEE, 0xFF}, reg(*foreign)}[verifrt.Choose(5)] // truncated to 0 / 1 byte, wrong index, foreign record
 		if disk {
 			for i := range verifrt.Disk["/work/id"].KV {
 				verifrt.Disk["/work/id"].KV[i].V = garbage
@@ -76,7 +78,7 @@ func VerifC09_Store() {
 	case 3:
 		verifrt.Reach("corrupt-record")
 		if isListed {
-			verifrt.Assert(lerr != nil, "undecodable record: lookup reports an error")
+			verifrt.Assert(lerr != nil || (status != nil && status.Revoked), "damaged record under the key of a listed certificate: an error (or still 'revoked'), never 'not revoked'")
 		} else {
 			verifrt.Assert(lerr == nil && !status.Revoked, "unlisted certificate unaffected by other corrupted records")
 		}
